@@ -3,7 +3,7 @@
    dimension, every vector.  Only statements; proofs are [exact <lemma>]. *)
 From mathcomp Require Import all_ssreflect all_algebra.
 From NSpa Require Import Model.Vec Model.Hrr Model.Vtb
-  Theory.SeqSum Theory.Conv Theory.MxBridge Theory.VtbLaws.
+  Theory.SeqSum Theory.Conv Theory.MxBridge Theory.VtbLaws Theory.Fourier.
 Import GRing.Theory.
 Local Open Scope ring_scope.
 
@@ -222,6 +222,48 @@ Theorem C02_superposition_is_elementwise :
     size a = size b -> vnth (vadd a b) i = vnth a i + vnth b i.
 Proof. exact: nth_vadd. Qed.
 Print Assumptions C02_superposition_is_elementwise.
+
+(* ---------------- HRR through the Fourier domain (how HrrAlgebra.bind computes it) ------- *)
+(* C: any commutative ring with an element w, w^d = 1, into which R embeds
+   (the complex numbers with w = exp(-2 pi i / d)) *)
+Theorem C02_hrr_bind_is_pointwise_product_of_spectra :
+  forall (R C : comRingType) (iota : {rmorphism R -> C}) p (w : C),
+    w ^+ p.+1 = 1 ->
+    forall (a b : seq R) (k : 'I_p.+1), size a = p.+1 ->
+    spectrum iota w (hrr_bind_core a b) k = spectrum iota w a k * spectrum iota w b k.
+Proof. first [exact: spectrum_bind | by move=> *; exact: spectrum_bind | by intros; eapply spectrum_bind; eauto]. Qed.
+Print Assumptions C02_hrr_bind_is_pointwise_product_of_spectra.
+
+(* with w primitive (orthogonal characters) and d regular in C, the vector with the product
+   spectrum is the circular convolution: irfft(rfft(a) . rfft(b)) can be nothing else *)
+Theorem C02_vector_with_product_spectrum_is_the_binding :
+  forall (R C : comRingType) (iota : {rmorphism R -> C}) p (w : C),
+    w ^+ p.+1 = 1 ->
+    (forall j : 'I_p.+1, j != 0 -> \sum_k chi w k j = 0) ->
+    GRing.lreg (p.+1%:R : C) -> injective iota ->
+    forall (a b r : seq R), size a = p.+1 -> size r = p.+1 ->
+    (forall k : 'I_p.+1, spectrum iota w r k = spectrum iota w a k * spectrum iota w b k) ->
+    r = hrr_bind_core a b.
+Proof. first [exact: product_spectrum_is_binding | by move=> *; exact: product_spectrum_is_binding | by intros; eapply product_spectrum_is_binding; eauto]. Qed.
+Print Assumptions C02_vector_with_product_spectrum_is_the_binding.
+
+Theorem C02_fourier_inversion_formula :
+  forall (C : comRingType) p (w : C),
+    w ^+ p.+1 = 1 ->
+    (forall j : 'I_p.+1, j != 0 -> \sum_k chi w k j = 0) ->
+    forall (f : 'I_p.+1 -> C) m, \sum_k dft w f k * chi w k (- m) = p.+1%:R * f m.
+Proof. first [exact: dft_inversion | by move=> *; exact: dft_inversion | by intros; eapply dft_inversion; eauto]. Qed.
+Print Assumptions C02_fourier_inversion_formula.
+
+(* non-vacuity of the Fourier hypotheses: d = 2, C = R = int, w = -1 *)
+Example C02_fourier_hypotheses_met :
+  let w : int := -1 in
+  w ^+ 2 = 1 /\ (forall j : 'I_2, j != 0 -> \sum_k chi w k j = 0) /\ GRing.lreg (2%:R : int).
+Proof.
+  split; first by [].
+  split; last by apply/lregP.
+  by move=> j; rewrite !big_ord_recl big_ord0 /chi /=; case: j => [[|[|m]]] //=.
+Qed.
 
 (* non-vacuity: concrete bindings at Z *)
 From mathcomp Require Import ssrZ.
